@@ -113,6 +113,9 @@ func VerifyFunction(ld *Loaded, cs *ContractSet, fn *ssa.Function, ct *Contract)
 	for _, b := range fn.Blocks {
 		for _, in := range b.Instrs {
 			if d, ok := in.(*ssa.DebugRef); ok && !d.IsAddr {
+				if obj := d.Object(); obj != nil && obj.Pkg() != nil && obj.Parent() == obj.Pkg().Scope() {
+					continue // a package-level name, not a local
+				}
 				if idn := identName(d); idn != "" {
 					if _, dup := fr.debugVals[idn]; !dup {
 						fr.debugVals[idn] = d.X
